@@ -28,6 +28,6 @@ for seed in mod.SEEDS:
             continue
         ctx = cli.evaluate(prop, "quick", tmp)
         rules = sorted({f.rule for f in ctx.findings})
-        print(seed["id"], "expect", seed["expect"], "->", rules, ("errors: " + "; ".join(str(e)[:80] for e in ctx.errors)) if ctx.errors else "")
+        print(seed["id"], "expect", seed["expect"], "->", rules, ("errors: " + "; ".join(str(e)[:400] for e in ctx.errors)) if ctx.errors else "")
     finally:
         shutil.rmtree(tmp, ignore_errors=True)
